@@ -237,10 +237,17 @@ Theorem C09_readings_agree :
 Proof. exact compile_indep. Qed.
 Print Assumptions C09_readings_agree.
 
-(* ... and it does reject a line git accepts: a backslash before a slash *)
+(* ... and it does reject lines git accepts: a backslash before a slash (for git the
+   same as a plain slash), a line ending in a dangling backslash and "!" alone (for
+   git: patterns that match nothing) *)
 Theorem C09_escaped_slash_refuted :
-  exists l, compile false [l] = CErr /\ compile true [l] = compile true ["a/x.c"] /\ compile true [l] <> CErr.
-Proof. exists "a\/x.c". vm_compute. repeat split. discriminate. Qed.
+  (exists l, compile false [l] = CErr /\ compile true [l] = compile true ["a/x.c"] /\ compile true [l] <> CErr) /\
+  (forall l, In l ["x.c\"; "!"] -> compile false [l] = CErr /\
+     exists ps, compile true [l] = CPats ps /\ git_ignored ps (comps_of ["x.c"]) = false).
+Proof.
+  split; [exists "a\/x.c"; vm_compute; repeat split; discriminate|].
+  intros l [<-|[<-|[]]]; (split; [vm_compute; reflexivity|eexists; split; vm_compute; reflexivity]).
+Qed.
 Print Assumptions C09_escaped_slash_refuted.
 
 (* ---- membership at the observation point ---- *)
